@@ -510,7 +510,7 @@ def run(chk):
             return rng.choice(['INFO:', 'info:', 'Info:']) + rng.choice(['x', 'newly discovered', 'Acetyl', ''])
         return rng.choice(['', 'Acetyll', 'acetyl', 'foo', 'U:', 'M:', 'X:Foo', 'R:AA0317', 'G:G35503UV', 'Formula:', 'Glycan:',
                            'Obs:', 'Formula:C2:H3', 'Glycan:Hex:2', 'Obs:4:2', 'U:Acetyl:x', ':', 'Unimod', 'MOD', 'x:y:z',
-                           'Formula:C]', 'Formula:[13C', 'Formula:[]', 'Glycan:Hex2Hex3', 'N/A', 'Phospho', 'Oxidation'])
+                           'Formula:C]', 'Formula:[13C', 'Formula:[]', 'Glycan:Hex2Hex3', 'Glycan:Hex1Hex2', 'Glycan:HexNAc2Hex3HexNAc1.5Hex-1', 'Glycan:FucFucFuc', 'N/A', 'Phospho', 'Oxidation'])
 
     def gen_decorated():
         k = rng.choice([1, 1, 1, 2, 2, 3])
@@ -569,6 +569,7 @@ def run(chk):
         return spelling_failure(pt, kind, byid[kind][eid])
 
     corpus = []
+    corpus_generic = []
     cpath = os.path.join(core.VERIF, 'corpus', PID, 'witnesses.jsonl')
     if os.path.exists(cpath):
         for ln in open(cpath):
@@ -576,7 +577,9 @@ def run(chk):
                 o = json.loads(ln)
                 if o.get('oracle') == 'spelling_invariance' and o['case'][1] in byid.get(o['case'][0], {}):
                     corpus.append(tuple(o['case']))
-    chk.count('corpus_replayed', len(corpus))
+                elif o.get('oracle') == 'generic_forms':
+                    corpus_generic.append(tuple(o['case']))
+    chk.count('corpus_replayed', len(corpus) + len(corpus_generic))
     chk.oracle('spelling_invariance', corpus + o_spell_cases, o_spelling,
                nontrivial_fn=lambda c: byid[c[0]][c[1]].mono_mass is not None, key_fn=lambda c: f'{c[0]}:{c[1]}')
 
@@ -631,9 +634,10 @@ def run(chk):
         elif r < 0.45:
             gcases.append(('formula', rng.choice(['Formula:', 'formula:']), gen_comp_dict()))
         elif r < 0.65:
-            g = {}
+            g = []  # (name, count) items; a name may be repeated (repeated names accumulate)
             for _ in range(rng.randint(1, 4)):
-                g[rng.choice(mono_names)] = rng.choice([1, 2, 3, 7, -1, 20, 1.5, -0.5])
+                g.append([rng.choice(mono_names) if (not g or rng.random() < 0.75) else rng.choice(g)[0],
+                          rng.choice([1, 2, 3, 7, -1, 20, 1.5, -0.5])])
             gcases.append(('glycan', rng.choice(GLY_PREF), g))
         elif r < 0.8:
             gcases.append(('alt', gen_entry_spelling(), rng.choice(['INFO:x', 'info:', 'Obs:+5.5', 'Formula:C2', 'foo', '+1'])))
@@ -688,17 +692,18 @@ def run(chk):
             return None
         if kind == 'glycan':
             _, p, g = c
-            s = p + ''.join(f'{k}{num_txt(v)}' for k, v in g.items())
-            # only unambiguous spellings: the text must parse back to the multiset it was written from
-            try:
-                back = pt.parse_glycan_formula(s.split(':', 1)[1])
-            except Exception:  # noqa
-                back = None
-            if back != g:
-                return None
+            items = list(g.items()) if isinstance(g, dict) else [tuple(x) for x in g]
+            s = p + ''.join(f'{k}{num_txt(v)}' for k, v in items)
+            # only unambiguous spellings: at every item no longer vocabulary name is a prefix of the remaining text
+            text = s.split(':', 1)[1]
+            pos = 0
+            for k, v in items:
+                if any(len(nm) > len(k) and text[pos:].startswith(nm) for nm in mono_names):
+                    return None
+                pos += len(k) + len(num_txt(v))
             for mono in (True, False):
                 exp = 0.0
-                for k, v in g.items():
+                for k, v in items:
                     db = S.MONOSACCHARIDES_DB
                     e = db.get_entry_by_name(k) if db.contains_name(k) else db.get_entry_by_synonym(k)
                     exp += (e.mono_mass if mono else e.avg_mass) * v
@@ -751,7 +756,7 @@ def run(chk):
             return None
         return None
 
-    chk.oracle('generic_forms', gcases, o_generic, nontrivial_fn=lambda c: True, key_fn=repr)
+    chk.oracle('generic_forms', corpus_generic + gcases, o_generic, nontrivial_fn=lambda c: True, key_fn=repr)
     lap('oracle generic')
     rep = reach.stop()
     if rep is not None:
